@@ -335,6 +335,13 @@ def _pat(src, mode):
     return ast.parse(src.strip(), mode=mode)
 
 
+class Binds(dict):
+    """bindings of a successful match: truthy even when empty"""
+
+    def __bool__(self):
+        return True
+
+
 def match(pattern, node, binds=None, np_alias=None):
     """Structural match of an AST against a pattern AST.  In the pattern, a Name whose id starts with `M_`
     is a metavariable for an identifier (bound consistently in `binds`), `X_` prefixed names match any
@@ -385,6 +392,10 @@ def match(pattern, node, binds=None, np_alias=None):
         return p == n
     saved = dict(binds)
     if m(pattern, node):
+        if not isinstance(binds, Binds):
+            b2 = Binds(binds)
+            binds.update(b2)
+            return b2
         return binds
     binds.clear()
     binds.update(saved)
